@@ -7,7 +7,7 @@ import numpy as np
 from hypothesis import strategies as st
 
 # ------------------------------------------------------------------ records
-BULK_KINDS = ["noise", "ar1", "ramp", "offset", "sines", "const", "zeros", "impulse"]
+BULK_KINDS = ["noise", "ar1", "ramp", "offset", "sines", "const", "zeros", "impulse", "line", "line"]
 SPECIAL = [0.0, 1.0, -1.0, 1e-30, -1e-30, 0.5, 1e6, -1e6, 3.0]
 
 
@@ -33,6 +33,11 @@ def record(draw, N, kinds=None, allow_list=True, scale=True):
         d["offset"] = draw(st.sampled_from([1.0, 1e3, 1e6, -1e6]))
     if kind == "ramp":
         d["slope"] = draw(st.sampled_from([1e-3, 1.0, -0.1, 10.0]))
+    if kind == "line":
+        # a strong stable line (or a constant, f=0) with a tiny noise floor: per-segment products scatter very
+        # little around a large mean (cancellation-prone statistics, negative-variance risks)
+        d["f"] = draw(st.one_of(st.just(0.0), st.floats(0.01, 0.49)))
+        d["floor"] = draw(st.sampled_from([0.0, 1e-12, 1e-9, 1e-6, 1e-3]))
     return d
 
 
@@ -56,6 +61,10 @@ def materialise(d):
         x = 0.01 * rng.standard_normal(N)
         for f in d["freqs"]:
             x = x + np.sin(2 * np.pi * float(f) * n + rng.uniform(0, 2 * np.pi))
+    elif k == "line":
+        x = np.cos(2 * np.pi * float(d["f"]) * n + rng.uniform(0, 2 * np.pi)) + float(d["floor"]) * rng.standard_normal(N)
+        if float(d["f"]) == 0.0:
+            x = 1.0 + float(d["floor"]) * rng.standard_normal(N)
     elif k == "const":
         x = np.full(N, float(rng.integers(-3, 4)) or 1.5)
     elif k == "zeros":
@@ -209,7 +218,8 @@ def loguniform(lo, hi):
     return st.floats(math.log(lo), math.log(hi)).map(lambda v: float(min(hi, max(lo, math.exp(v)))))
 
 
-KAISER_OLAPS = [0.6613, 0.7058, 0.7961]  # kaiser_rov(kaiser_alpha(psll)) for typical psll (approx.)
+KAISER_OLAPS = [0.6613, 0.7058, 0.7961]
+RATIONAL_OLAPS = [1.0 / 3.0, 2.0 / 3.0, 0.1, 0.2, 0.3, 0.4, 0.6, 0.7, 0.8, 1.0 / 6.0, 5.0 / 6.0, 1.0 / 7.0]  # kaiser_rov(kaiser_alpha(psll)) for typical psll (approx.)
 
 
 @st.composite
@@ -219,6 +229,9 @@ def sched_config(draw, Nmax=20000, Nmin=8, Jmax=2000):
                         loguniform(1e-3, 1e6)))
     olap = draw(st.one_of(
         st.sampled_from([0.0, 0.25, 0.5, 0.75, 0.9, 0.99, 0.999] + KAISER_OLAPS),
+        # rational overlaps that are not binary fractions: exact .5 ties of 1+(N-L)/((1-olap)L) evaluated in
+        # floating point land on either side of the tie depending on the association of the expression
+        st.sampled_from(RATIONAL_OLAPS),
         st.floats(0.0, 0.95)))
     bhi = N / 2.0
     bmin = draw(st.one_of(st.sampled_from([1.0, 1.0, 1.5, 2.0, 3.7]), st.floats(1.0, max(1.0, bhi * 0.999))))
